@@ -377,6 +377,12 @@ func (f *eofFile) Seek(offset int64, whence int) (int64, error) {
 // before it reads them in order - what an instance pool does while requests are on the wire. Deliveries that share state
 // (one reader, one buffer, one ammo object handed out twice) show up deterministically this way.
 func runProvider(dec config.DecoderType, file []byte, k int, preload bool, headers []string, unlimited bool, maxRead int, consumers int, window int, eofData bool) string {
+	return runProviderVia(dec, file, k, preload, headers, unlimited, maxRead, consumers, window, eofData, "", false)
+}
+
+// via: "" = phttp.NewProvider called directly, "reg" / "http" = through the plugin registry from a config map (round4.go);
+// uris: the file's lines are handed over in the `uris` option instead of a file.
+func runProviderVia(dec config.DecoderType, file []byte, k int, preload bool, headers []string, unlimited bool, maxRead int, consumers int, window int, eofData bool, via string, uris bool) string {
 	mem := afero.NewMemMapFs()
 	if err := afero.WriteFile(mem, "/ammo", file, 0o644); err != nil {
 		panic(err)
@@ -394,7 +400,17 @@ func runProvider(dec config.DecoderType, file []byte, k int, preload bool, heade
 		conf.Limit = 0
 		want = k
 	}
-	p, err := phttp.NewProvider(fs, conf)
+	if uris {
+		conf.File = ""
+		conf.Uris = strings.Split(string(file), "\n")
+	}
+	var p core.Provider
+	var err error
+	if via != "" {
+		p, err = r4NewProvider(via, fs, conf)
+	} else {
+		p, err = phttp.NewProvider(fs, conf)
+	}
 	if err != nil {
 		return "err=" + classifyErr(err) + " n=0 reqs="
 	}
@@ -641,15 +657,20 @@ func c07Run(input string) string {
 	cons, _ := strconv.Atoi(kv["cons"])
 	win, _ := strconv.Atoi(kv["win"])
 	eofd := kv["eofd"] == "1"
+	via := kv["via"]
 	switch kv["fmt"] {
 	case "uri":
-		return runProvider(config.DecoderURI, unhx(kv["file"]), k, pre, cfg, unl, rd, cons, win, eofd)
+		return runProviderVia(config.DecoderURI, unhx(kv["file"]), k, pre, cfg, unl, rd, cons, win, eofd, via, kv["uris"] == "1")
 	case "uripost":
-		return runProvider(config.DecoderURIPost, unhx(kv["file"]), k, pre, cfg, unl, rd, cons, win, eofd)
+		return runProviderVia(config.DecoderURIPost, unhx(kv["file"]), k, pre, cfg, unl, rd, cons, win, eofd, via, false)
 	case "raw":
-		return runProvider(config.DecoderRaw, unhx(kv["file"]), k, pre, cfg, unl, rd, cons, win, eofd)
+		return runProviderVia(config.DecoderRaw, unhx(kv["file"]), k, pre, cfg, unl, rd, cons, win, eofd, via, false)
 	case "json":
-		return runProvider(config.DecoderJSONLine, renderJSON(kv), k, pre, cfg, unl, rd, cons, win, eofd)
+		jf := renderJSON(kv)
+		if kv["jfile"] != "" { // the bytes the Lean side reads are the bytes the provider reads
+			jf = unhx(kv["jfile"])
+		}
+		return runProviderVia(config.DecoderJSONLine, jf, k, pre, cfg, unl, rd, cons, win, eofd, via, false)
 	}
 	return "err=badinput n=0 reqs="
 }
@@ -687,6 +708,15 @@ func c07Class(input, obs string) string {
 	}
 	if kv["pre"] == "1" {
 		c += "/preload"
+	}
+	if kv["via"] != "" {
+		c += "/via-registry"
+	}
+	if kv["uris"] != "" {
+		c += "/uris-option"
+	}
+	if kv["long"] != "" {
+		c += "/65536+"
 	}
 	if kv["cfgh"] != "" {
 		c += "/headers-option"
@@ -1094,7 +1124,7 @@ func c07Gen(r *rand.Rand, tier string) []string {
 			every = 40
 			conc = conc && i%4 == 0
 		}
-		if len(l) < 1<<19 && (conc || i%every == 0) {
+		if len(l) < 1<<19 && (conc || i%every == 0) && !strings.Contains(l, " long=1") {
 			keep = append(keep, l)
 		}
 	}
@@ -1124,6 +1154,10 @@ func c07GenAll(r *rand.Rand, tier string) []string {
 			out[i] += fmt.Sprintf(" win=%d", []int{2, 2, 3, 4, 7, 16}[r2.Intn(6)])
 		}
 	}
+	// round 4: construction through the plugin registry from a config map, the `uris` option, runs above 2^16 deliveries
+	r4 := rand.New(rand.NewSource(r2.Int63()))
+	r4Decorate(out, r4)
+	out = append(out, r4Long(r4, tier)...)
 	return out
 }
 
@@ -1977,6 +2011,7 @@ func main() {
 			"limits on / next to pass boundaries and many passes, absolute-form targets, bodies of 4-64 KiB, a third of the files through short reads, one well-formed case in six drained by 2-4 concurrent consumers " +
 			"(multiset of deliveries), one in four with 2-16 deliveries in flight before they are read; one file in five whose last Read returns its data together with io.EOF, bodies / frames of 4-64 KiB as the last bytes of such a file; " +
 			"raw frames with header lines in several spellings, blanks around values, Connection / Cookie / mixed-case Host (what a frame says is read by the Lean side, the library table only covers exotic frames); uri / uripost / raw lines and bodies above 1 MiB; " +
+			"a quarter of the cases builds the provider through the plugin registry from a config map (type uri/uripost/raw/http/json, or type http + decoder), a third of the plain uri cases hands the lines over in the `uris` option, runs of more than 65536 deliveries over three entries; " +
 			"every case runs in a child process (a fault that ends the process is the observation FATAL of that case); " +
 			"the real NewProvider+Run+Acquire is drained; non-trivial = at least one request or a decoder error",
 	})
